@@ -255,7 +255,17 @@ func (g *Gen) ingestTables() (tables [][]Ev, flat []Ev) {
 			case 1:
 				tbl = append(tbl, Ev{"o": "rkunset", "a": a, "b": b, "s": g.Rng.IntN(g.U.S + 1)})
 			default:
-				tbl = append(tbl, Ev{"o": "rkset", "a": a, "b": b, "s": g.Rng.IntN(g.U.S + 1), "v": g.v()})
+				s := g.Rng.IntN(g.U.S + 1)
+				tbl = append(tbl, Ev{"o": "rkset", "a": a, "b": b, "s": s, "v": g.v()})
+				// sometimes a second set of the same suffix right after it (abutting spans, one
+				// sequence number, different value: the spans must stay distinct) or another suffix
+				// over the same span
+				if nb := b / (g.U.S + 1); nb < ph && g.Rng.IntN(2) == 0 {
+					e := (nb + 1 + g.Rng.IntN(ph-nb)) * (g.U.S + 1)
+					tbl = append(tbl, Ev{"o": "rkset", "a": b, "b": e, "s": s, "v": g.v()})
+				} else if g.Rng.IntN(2) == 0 {
+					tbl = append(tbl, Ev{"o": "rkset", "a": a, "b": b, "s": (s + 1) % (g.U.S + 1), "v": g.v()})
+				}
 			}
 		}
 		np := g.Rng.IntN(4)
